@@ -862,7 +862,28 @@ const (
 	refMaxWork  = 300000
 )
 
-func refSolveQuery(prog []*gt, query *gt, max int, iso bool) (out refOutcome) {
+// call_nth(G, 1) is once(G) by definition (the first solution of G, no other); the reference
+// interpreter has no call_nth/2, so the clauses of a program are read with that goal rewritten
+// (only in clauses: answers print the query term, which must be the same on all sides)
+func refRewriteCallNth(t *gt) *gt {
+	if t.kind != "app" {
+		return t
+	}
+	if t.s == "call_nth" && len(t.args) == 2 && t.args[1].kind == "int" && t.args[1].i == 1 {
+		return gApp("once", refRewriteCallNth(t.args[0]))
+	}
+	args := make([]*gt, len(t.args))
+	for i, a := range t.args {
+		args[i] = refRewriteCallNth(a)
+	}
+	return gApp(t.s, args...)
+}
+
+func refSolveQuery(prog0 []*gt, query *gt, max int, iso bool) (out refOutcome) {
+	prog := make([]*gt, len(prog0))
+	for i, c := range prog0 {
+		prog[i] = refRewriteCallNth(c)
+	}
 	ri := &refInterp{iso: iso, maxSteps: refMaxSteps, maxRD: refMaxRD, maxSize: refMaxSize, exitSeen: map[int]bool{}}
 	out.ri = ri
 	if iso {
